@@ -25,4 +25,12 @@ class ExprArraySumModel(ExprDynamicModel):
     
     def accept(self, v):
         v.visit_expr_array_sum(self)
+        
+    def val(self):
+        # Current value of the sum (used when the list is not being randomized)
+        from vsc.model.value_scalar import ValueScalar
+        ret = 0
+        for i in range(int(self.arr.size.get_val())):
+            ret += int(self.arr.field_l[i].get_val())
+        return ValueScalar(ret)
     
